@@ -7,8 +7,10 @@ setters / move / copy) + observations (__call__, get_integral, cdf, get_param,
 object state).  Floats are compared with a tolerance derived from the case.
 
 Predicates (failing-input search, independent of the model): get_integral vs
-scipy quad of __call__, additivity, unit invariance, product form, update =
-construct, copy independence — evaluated on the real objects."""
+scipy quad of __call__, additivity, unit invariance, product form, history
+probes (every observable read before the first op and after every op, compared
+with a freshly constructed twin; repeated reads), argument arrays unchanged,
+copy independence — evaluated on the real objects."""
 import math
 import warnings
 
@@ -30,7 +32,7 @@ TRUSTED = [
     'axioms printed by Print Assumptions: the standard-library real-number axioms (ClassicalDedekindReals.sig_not_dec, '
     'sig_forall_dec, functional_extensionality_dep) and Classical_Prop.classic (Coquelicot)',
     'Section hypothesis (premise of the Gaussian theorems): erf is differentiable with derivative 2/sqrt(pi) exp(-x^2)',
-    'translator/py2coq.py: per-element reading of the numpy formulas of flux_model.py / math.py (71 kernels of G_flux.v, '
+    'translator/py2coq.py: per-element reading of the numpy formulas of flux_model.py / math.py (73 kernels of G_flux.v, '
     'each pinned by one K_ lemma)',
     'hand model M_Flux.v of class dispatch, setter / set_params plumbing, constructors, deepcopy as allocation in an '
     'explicit store; validated by this correspondence',
@@ -187,6 +189,10 @@ def observe(e, store, ob):
         if type(x) in (fm.UnityEnergyFluxProfile, fm.PowerLawEnergyFluxProfile):
             return [float(np.atleast_1d(x.get_integral(ob[3], ob[4], unit=U))[0])]
         return ['quad']
+    if k == 'TT':
+        if not isinstance(x, fm.TimeFluxProfile):
+            return ['E:TypeError']
+        return [float(x.get_total_integral())]
     if k in ('TC', 'TI', 'CD'):
         if not isinstance(x, fm.TimeFluxProfile) or (k == 'CD' and not isinstance(x, fm.BoxTimeFluxProfile)):
             return ['E:TypeError']
@@ -283,6 +289,11 @@ def obs_tol(case, ob, store_kinds):
                 return 4e-15 * abs(E0 ** g / (1 - g)) * (b ** (1 - g) + a ** (1 - g))
             except (OverflowError, ZeroDivisionError):
                 return math.inf
+    if k == 'TT':
+        o = store_kinds.get(ob[1])
+        if o and o[0] == 'GA':
+            return 1e-13 * abs(o[3]) * 4
+        return 1e-9
     if k in ('TI',):
         o = store_kinds.get(ob[1])
         if o and o[0] == 'GA':
@@ -645,40 +656,180 @@ def probes(e, x, rng):
     return out
 
 
-def pred_update(ctx, e, case, store):
-    """a profile updated through set_params / setters / move == one constructed with the final values"""
-    try:
-        spec = spec_of(e, case)
-    except Exception as ex:      # malformed op stream: nothing to compare
-        ctx.count('pred:update-skipped')
-        return
-    if len(spec) != len(store):
-        return
-    for l, (s, x) in enumerate(zip(spec, store)):
-        if s['k'] in ('FM', 'US', 'UE', 'FN') or s.get('dirty'):
+def read_all(e, x):
+    """EVERY public observable of one object at fixed probe points (reads populate any memo)"""
+    fm = e['fm']
+    out = []
+    if is_model(e, x):
+        sp, tp = x.spatial_profile, x.time_profile
+        ts, te = tp.t_start, tp.t_stop
+        if not (math.isfinite(ts) and math.isfinite(te)):
+            ts, te = -5.0, 5.0
+        ra = np.array([getattr(sp, '_ra', None) or 0.3, 1.0]); dec = np.array([getattr(sp, '_dec', None) or 0.1, 0.2])
+        v = x(ra=ra, dec=dec, E=np.array([0.7, 30.0]), t=np.array([ts + 0.31 * (te - ts), te + 0.4 * (te - ts)]))
+        out += [float(z) for z in np.asarray(v).ravel()]
+        out += [x.math_function_str, tuple(x.param_names)]
+        for n in x.param_names:
+            out.append(float(x.get_param(n)))
+        return out
+    out.append(x.math_function_str)
+    if isinstance(x, fm.EnergyFluxProfile):
+        for E in (0.5, 3.0, 250.0):
+            out.append(float(x(E)[0]))
+        out.append(float(x(2e-3, unit=e['EU'][1])[0]))
+        if type(x) in (fm.UnityEnergyFluxProfile, fm.PowerLawEnergyFluxProfile):
+            out.append(float(x.get_integral(1.0, 30.0)[0]))
+            out.append(float(x.get_integral(1e-3, 3e-2, unit=e['EU'][1])[0]))
+    elif isinstance(x, fm.TimeFluxProfile):
+        ts, te = x.t_start, x.t_stop
+        out += [ts, te, x.duration]
+        if not (math.isfinite(ts) and math.isfinite(te)):
+            ts, te = -5.0, 5.0
+        w = te - ts
+        pts = [ts + r * w for r in (-0.37, 0.21, 0.5, 0.83, 1.41)]
+        for t in pts:
+            out.append(float(x(t)[0]))
+        out.append(float(np.atleast_1d(x.get_integral(ts - 0.3 * w, ts + 0.6 * w))[0]))
+        out.append(float(np.atleast_1d(x.get_integral(ts + 0.2 * w, ts + 0.7 * w))[0]))
+        out.append(float(x.get_total_integral()))
+        if hasattr(x, 'cdf'):
+            out += [float(z) for z in x.cdf(np.array(pts))]
+    elif isinstance(x, fm.SpatialFluxProfile):
+        out.append(float(x(getattr(x, '_ra', None) or 0.0, getattr(x, '_dec', None) or 0.0)[0]))
+        out.append(float(x(0.123, 0.456)[0]))
+    for n in x.param_names:
+        out.append(float(x.get_param(n)))
+        out.append(float(getattr(x, n)))
+    return out
+
+
+def same_reads(a, b, scale):
+    if len(a) != len(b):
+        return False
+    for u, v in zip(a, b):
+        if isinstance(u, float) and isinstance(v, float):
+            if not close(u, v, 1e-9 * scale + 1e-12):
+                return False
+        elif isinstance(u, str) and isinstance(v, str):
+            continue          # formatted to 6 digits: rounding of a moved window may flip the last digit
+        elif u != v:
+            return False
+    return True
+
+
+def fresh_store(e, spec):
+    """objects constructed directly with the parameter values the history asks for"""
+    out = []
+    for s in spec:
+        p, k = s['p'], s['k']
+        if s.get('dirty'):
+            out.append(None)
             continue
-        p = s['p']
-        k = s['k']
-        o = {'PL': lambda: ['PL', s['u'], p['E0'], p['gamma']],
+        o = {'UE': lambda: ['UE', s['u']], 'FN': lambda: ['FN', s['u']] + list(s['f']),
+             'PL': lambda: ['PL', s['u'], p['E0'], p['gamma']],
              'CO': lambda: ['CO', s['u'], p['E0'], p['gamma'], p['Ecut']],
              'LP': lambda: ['LP', s['u'], p['E0'], p['alpha'], p['beta']],
              'UT': lambda: ['UT', s['u'], p['t_start'], p['t_stop']],
              'BX': lambda: ['BX', s['u'], p['t0'], p['tw']],
              'GA': lambda: ['GA', s['u'], p['t0'], p['sigma_t'], s.get('tol')],
-             'PT': lambda: ['PT', p['ra'], p['dec']]}[k]()
-        fresh = build_obj(e, [], o)
-        a = probes(e, x, ctx.rng)
-        b = probes(e, fresh, ctx.rng)
-        scale = 0.0
-        if k in ('BX', 'GA'):
-            scale = abs(p['t0']) + abs(p.get('tw', 0.0)) + abs(p.get('sigma_t', 0.0))
-        bad = [i for i, (u, v) in enumerate(zip(a, b)) if not close(u, v, 1e-9 * scale + 1e-12)]
-        if len(a) != len(b) or bad:
-            ctx.violation(type(x).__name__ + '.set_params/setters/move', 'update-differs-from-construct',
-                          f'after the ops the profile differs from one constructed with {p}: {a} vs {b}',
-                          case={'case': case, 'loc': l}, impl=a, model=b,
-                          predicate='update(p) then observe == construct(p) then observe')
-        ctx.count('pred:update')
+             'US': lambda: ['US'], 'PT': lambda: ['PT', p['ra'], p['dec']],
+             'FM': lambda: ['FM', p['Phi0']] + list(s['refs'])}[k]()
+        if k == 'FM' and any(out[r] is None for r in s['refs']):
+            out.append(None)
+            continue
+        out.append(build_obj(e, out, o))
+    return out
+
+
+def pred_history(ctx, e, case):
+    """mutate-then-observe: on fresh real objects, read EVERY observable of every object before the
+    first op and after every op (a read is what populates a memo), and after every op compare every
+    object with a twin constructed directly with the parameter values the history asks for"""
+    store = []
+    try:
+        for o in case['objs']:
+            store.append(build_obj(e, store, o))
+    except Exception:
+        return
+    for step in range(len(case['ops']) + 1):
+        if step > 0:
+            op = case['ops'][step - 1]
+            try:
+                if op[1] >= len(store):
+                    raise IndexError(op[1])
+                apply_op(e, store, op)
+            except Exception:
+                return                      # malformed stream: the op raises, nothing more to compare
+        try:
+            spec = spec_of(e, {'objs': case['objs'], 'ops': case['ops'][:step]})
+            twins = fresh_store(e, spec)
+        except Exception:
+            ctx.count('pred:history-skipped')
+            return
+        if len(twins) != len(store):
+            return
+        for l, (x, tw) in enumerate(zip(store, twins)):
+            got = read_all(e, x)
+            again = read_all(e, x)
+            if not same_reads(got, again, 0.0) or any(isinstance(u, float) and isinstance(v, float) and u != v and not (math.isnan(u) and math.isnan(v))
+                                                       for u, v in zip(got, again)):
+                ctx.violation(type(x).__name__ + '.observables', 'repeated-read-differs',
+                              f'two consecutive reads of the same observables differ: {got} vs {again}',
+                              case={'case': case, 'loc': l, 'after_ops': step}, impl=got, model=again,
+                              predicate='an observable is a function of the current state')
+            if tw is None:
+                continue
+            want = read_all(e, tw)
+            sp = spec[l]['p']
+            scale = abs(sp.get('t0', 0.0)) + abs(sp.get('tw', 0.0)) + abs(sp.get('sigma_t', 0.0))
+            if is_model(e, x):
+                tps = spec[spec[l]['refs'][2]]['p']
+                scale = abs(tps.get('t0', 0.0)) + abs(tps.get('tw', 0.0)) + abs(tps.get('sigma_t', 0.0))
+            if not same_reads(got, want, scale):
+                ctx.violation(type(x).__name__ + '.set_params/setters/move', 'update-differs-from-construct',
+                              f'after {step} op(s) the object differs from one constructed with {sp}: {got} vs {want}',
+                              case={'case': case, 'loc': l, 'after_ops': step}, impl=got, model=want,
+                              predicate='observe; update(p); observe == construct(p); observe  (every observable)')
+            ctx.count('pred:history-compare')
+
+
+def pred_arguments(ctx, e, case, store):
+    """arguments are inputs: ndarray bounds / points handed to a call are not modified, and handing the
+    SAME arrays to two consecutive calls gives the same result"""
+    fm = e['fm']
+    for l, x in enumerate(store):
+        if isinstance(x, fm.EnergyFluxProfile):
+            units, su, lo = e['EU'], e['EU'].index(x.energy_unit), 1.0
+            numeric = type(x) not in (fm.UnityEnergyFluxProfile, fm.PowerLawEnergyFluxProfile)
+        elif isinstance(x, fm.TimeFluxProfile):
+            units, su = e['TU'], e['TU'].index(x.time_unit)
+            lo = x.t_start if math.isfinite(x.t_start) else -3.0
+            numeric = False
+        else:
+            continue
+        for uc in (None, (su + 1) % 3, (su + 2) % 3):
+            U = None if uc is None else units[uc]
+            a = np.array([abs(lo) * 0.5 + 0.5, abs(lo) * 0.7 + 1.0]); b = a * 3.0 + 1.0
+            if isinstance(x, fm.TimeFluxProfile):
+                a = np.array([lo - 1.0, lo + 0.1]); b = a + 2.5
+            sa, sb = a.copy(), b.copy()
+            calls = [('__call__', lambda: np.array(x(a, unit=U), dtype=float))]
+            if not numeric:
+                calls.append(('get_integral', lambda: np.array(x.get_integral(a, b, unit=U), dtype=float)))
+            if hasattr(x, 'cdf'):
+                calls.append(('cdf', lambda: np.array(x.cdf(a, unit=U), dtype=float)))
+            for name, f in calls:
+                r1 = f(); r1c = r1.copy()
+                r2 = f()
+                changed = not (np.array_equal(a, sa) and np.array_equal(b, sb))
+                if changed or not np.array_equal(r1c, r2, equal_nan=True) or not np.array_equal(r1, r1c, equal_nan=True):
+                    ctx.violation(type(x).__name__ + '.' + name, 'argument-array-modified' if changed else 'repeated-call-differs',
+                                  f'arguments {sa},{sb} unit {uc}: after the call {a},{b}; results {r1c} then {r2}',
+                                  case={'case': case, 'loc': l, 'unit': uc, 'a': sa.tolist(), 'b': sb.tolist()},
+                                  impl=[r1c.tolist(), r2.tolist(), a.tolist(), b.tolist()],
+                                  predicate='ndarray arguments unchanged; same arrays, same result')
+                    a[:] = sa; b[:] = sb
+        ctx.count('pred:arguments')
 
 
 def snapshot(e, x):
@@ -872,6 +1023,7 @@ def gen_case(ctx, rng, malformed=False):
                 obs.append(['TC', l, u, rng.uniform(-150, 150) * scale]); ctx.count(f'unit:t:{u}')
             a = rng.uniform(-150, 100); b = a + rng.uniform(0, 120)
             obs.append(['TI', l, u, a * scale, b * scale])
+            obs.append(['TT', l])
             if k == 'BX':
                 obs.append(['CD', l, u, rng.uniform(-150, 150) * scale])
         elif k in ('US', 'PT'):
@@ -919,6 +1071,10 @@ def corpus_cases():
         {'objs': [['GA', 0, 10.0, 2.0, 0.5]], 'ops': [],
          'obs': [['ST', 0], ['TI', 0, -1, 0.0, 20.0], ['TI', 0, -1, 20.0, 30.0], ['TI', 0, -1, 9.0, 30.0],
                  ['TI', 0, -1, -5.0, 9.5], ['TI', 0, -1, 9.0, 11.0], ['TI', 0, 1, 0.0, 1.0]]},
+        # memo hazard: total integral / cdf read, then the width is changed through every route
+        {'objs': [['US'], ['PL', 0, 1.0, 2.0], ['GA', 1, 10.0, 2.0, 1e-12], ['FM', 1.0, 0, 1, 2], ['BX', 0, 5.0, 4.0]],
+         'ops': [['SP', 2, [['sigma_t', 5.0]]], ['SA', 4, 'tw', 10.0], ['CW', 2, [['sigma_t', 1.0]]], ['SP', 3, [['sigma_t', 3.0], ['gamma', 2.5]]]],
+         'obs': [['TT', 2], ['TT', 4], ['TT', 5], ['ST', 2], ['ST', 5], ['TI', 2, -1, 0.0, 20.0]]},
         # 8f69f79: Ecut / alpha / beta are parameters
         {'objs': [['CO', 0, 1.0, 2.0, 10.0], ['LP', 0, 1.0, 2.0, 0.1]],
          'ops': [['SP', 0, [['Ecut', 5.0]]], ['SP', 1, [['alpha', 3.0], ['beta', 0.2]]]],
@@ -946,7 +1102,8 @@ def run_cases(ctx, cases, exe):
         try:
             pred_integrals(ctx, e, c, store)
             pred_product(ctx, e, c, store)
-            pred_update(ctx, e, c, store)
+            pred_arguments(ctx, e, c, store)
+            pred_history(ctx, e, c)
             pred_copy(ctx, e, c, store)
         except Exception as ex:
             ctx.violation('flux_model.predicates', 'raises-' + exc_kind(ex), f'{type(ex).__name__}: {ex}'[:300],
@@ -977,7 +1134,7 @@ def run(ctx):
         cases.append(gen_case(ctx, rng, malformed=True))
     while len(cases) < n:
         cases.append(gen_case(ctx, rng))
-    for c in cases[4:7]:
+    for c in cases[5:8]:
         ctx.sample({'objs': c['objs'], 'ops': c['ops'], 'n_obs': len(c['obs'])})
     run_cases(ctx, cases, exe)
 
